@@ -73,6 +73,9 @@ def c13_cases(tier):
             cases.append(dict(history="primitives", ending=f"kill_at_{where}:{nth}"))
             if nth == 1:
                 cases.append(dict(history="executor-clean", ending=f"kill_at_{where}:{nth}"))
+    for h in ("initmain-killed", "initmain-broken"):
+        for e in ("normal", "sigkill"):
+            cases.append(dict(history=h, ending=e, import_lock=True))
     cases.append(dict(history="primitives", ending="sigkill", release=False))
     cases.append(dict(history="primitives", ending="sigkill", release=False, werror=True))
     cases.append(dict(history="executor-live", ending="sigkill", werror=True))
@@ -85,7 +88,8 @@ def run_c13(tier, nproc=6):
     with cf.ThreadPoolExecutor(nproc) as tp:
         rs = list(tp.map(lambda c: runner.run(
             "sem", dict(c, watchdog=60), None, timeout=80, module="vf.real.treescn", post=sem_post,
-            env_extra={"PYTHONWARNINGS": "error::UserWarning"} if c.get("werror") else None), cases))
+            env_extra=({"PYTHONWARNINGS": "error::UserWarning"} if c.get("werror") else
+                       {"VF_IMPORT_TIME_LOCK": "1"} if c.get("import_lock") else None)), cases))
     viol = []
     samples = []
     for c, r in zip(cases, rs):
